@@ -327,6 +327,40 @@ theorem hash_memo_partial_drop_counterexample :
     subst ht
     simp [hashTree, tyHash, tyHashList, Ty.bool] at e
 
+/-! ### `==` and `hash` on heap terms (DAGs), for every history -/
+
+/-- `eq_iff_alpha` is about trees; the objects the code compares are DAGs in a heap with a history.
+For EVERY history of constructor calls, `Term(t)`, `copy`, frees of unreferenced objects, `hash`
+calls, `subst_type_inplace` (under `NoAlias`) and operations that only allocate (`subst_bound`,
+`subst`, `incr_boundvars`: `MStep.grow`), with any allocator: the heap satisfies `IdInv`, and
+`Term.__eq__` as written (the `_id` short cut first, then the recursion through shared
+sub-objects) on two live objects answers exactly alpha-equivalence of the trees they unfold to —
+True iff the name-erased unfoldings are identical; and then their hashes (memoised or not) agree. -/
+theorem heap_eq_iff_alpha (h : Heap) (m : Memo) (hst : MSteps (Heap.empty, Memo.empty) (h, m))
+    (a b : Addr) (ta tb : Term) (fuel : Nat) (ra : Repr h a ta) (rb : Repr h b tb)
+    (hs : size ta ≤ fuel) :
+    IdInv h ∧ eqFast h fuel a b = some (Term.aeq ta tb) ∧
+    (eqFast h fuel a b = some true ↔ Term.erase ta = Term.erase tb) ∧
+    (Term.aeq ta tb = true → size tb ≤ fuel → hashObs h m fuel a = hashObs h m fuel b) := by
+  have hi : IdInv h := MSteps_idinv (s := (Heap.empty, Memo.empty)) IdInv.empty hst
+  have hm : MemoInv h m := MSteps_inv (s := (Heap.empty, Memo.empty)) MemoInv.empty hst
+  have he := eqFast_sound hi fuel a b ta tb ra rb hs
+  refine ⟨hi, he, ?_, fun hab hsb => ?_⟩
+  · rw [he, ← Term.aeq_iff_erase]
+    simp
+  · rw [hashObs_eq hm ra hs, hashObs_eq hm rb hsb, hashTree_congr ta tb hab]
+
+example : ∃ h m, MSteps (Heap.empty, Memo.empty) (h, m) ∧
+    Repr h 1 (.comb (.svar "x" Ty.bool) (.svar "x" Ty.bool)) ∧ eqFast h 3 1 1 = some true :=
+  ⟨_, _, .cons (s2 := (Heap.empty.set 0 ⟨.svar "x" (.stvar "a"), 0⟩, Memo.empty))
+      (.alloc (a := 0) (n := .svar "x" (.stvar "a")) rfl) <|
+    .cons (s2 := (sharedHeap, Memo.empty)) (.alloc (a := 1) (n := .comb 0 0) rfl) <|
+    .cons (.inplace (σ := [("a", Ty.bool)]) (R := [1, 0]) (childClosed_sound (by decide))
+      (fun b _ hm => absurd rfl hm)) (.nil _),
+    readTerm_repr 3 1 _ (by
+      simp [readTerm, inplaceHeap, sharedHeap, Heap.set, substNode, Ty.subst, List.lookup, Ty.bool]),
+    by decide⟩
+
 /-! ### type instantiation -/
 
 /-- `subst_type` preserves well-typedness; the type is the instantiated type. -/
